@@ -92,7 +92,11 @@ pub fn set_big(v: bool) {
 
 fn payload_len(rng: &mut Prng) -> usize {
     if BIG.load(std::sync::atomic::Ordering::Relaxed) && rng.chance(2, 3) {
-        return match rng.below(8) {
+        return match rng.below(10) {
+            // whole multiples of 2^16 once the 8 / 20 octet transport header is added (the low
+            // 16 bits of the true size are 0, like a length field that says "see the enclosing data")
+            8 => 65536 * (1 + rng.below(2) as usize) - 8,
+            9 => 65536 * (1 + rng.below(2) as usize) - 20,
             0 => 65535 - rng.range(0, 100) as usize,
             1 => 65535 + rng.range(1, 100) as usize,
             2 => 65535 - 8 - rng.range(0, 3) as usize,
@@ -132,7 +136,12 @@ pub const ICMP6_TYPES: [u8; 18] = [
 
 pub fn gen_udp(rng: &mut Prng, lie: Lie) -> Built {
     let pl = payload_len(rng);
-    let (len, ok) = lie_len(rng, 8 + pl, 0xffff, lie);
+    let (mut len, mut ok) = lie_len(rng, 8 + pl, 0xffff, lie);
+    // a datagram too large for the field announces 0 ("see the enclosing data", RFC 2675)
+    if 8 + pl > 0xffff && rng.chance(1, 2) {
+        len = 0;
+        ok = false;
+    }
     let mut b = Vec::with_capacity(8 + pl);
     b.extend_from_slice(&rng.u16_corner().to_be_bytes());
     b.extend_from_slice(&rng.u16_corner().to_be_bytes());
@@ -441,9 +450,12 @@ pub fn gen_ipv6(rng: &mut Prng, lie: Lie) -> Built {
     let first = kinds.first().copied().unwrap_or(num);
     let ext_total: usize = chain.iter().map(|c| c.len()).sum();
     let truth = ext_total + inner.bytes.len();
-    let (plen, ok) = lie_len(rng, truth, 0xffff, lie);
+    let (mut plen, ok) = lie_len(rng, truth, 0xffff, lie);
     if !ok {
         clean = false;
+    }
+    if truth > 0xffff && rng.chance(1, 2) {
+        plen = 0;
     }
     let version = if lie == Lie::Any && rng.chance(1, 40) { rng.below(16) as u8 } else { 6 };
     if version != 6 {
